@@ -30,7 +30,7 @@ def tlaps_lemmas(tier, seed, out):
 
 def C07(tier, seed):
     req = ["C07.contains", "C07.range_contains", "C07.range_bounds", "C07.range_contains_consistent",
-           "C07.intersects", "C07.includes", "C07.is_included_in"]
+           "C07.intersects", "C07.includes", "C07.is_included_in", "C07.nan_probe"]
     return {
         "stages": [iv_chain(tier, req)],
         "pre": [tlaps_lemmas],
@@ -45,7 +45,7 @@ def C07(tier, seed):
 
 def C15(tier, seed):
     return {
-        "stages": [iv_chain(tier, ["C15.partial_cmp", "C15.operators", "C15.eq_consistent"])],
+        "stages": [iv_chain(tier, ["C15.partial_cmp", "C15.operators", "C15.eq_consistent", "C15.infinite_explicit_bound"])],
         "pre": [tlaps_lemmas],
         "exhaustive": True,
         "rule": "all ordered pairs of intervals over the chain x 9 element types through partial_cmp and the five "
